@@ -116,6 +116,21 @@ pub fn check_tree(ctx: &mut Ctx, doc: &[u8], framings: &[Framing]) {
                 walk::cmp_value(&v, &root, &text, true)
             }),
         );
+        for order in 0..2 {
+            ok_or(
+                ctx,
+                if order == 0 { "use_rawnumber+utf8_lossy<Value>" } else { "utf8_lossy+use_rawnumber<Value>" },
+                &text,
+                guard(|| {
+                    let v: Value = scribbled(&text, |b| {
+                        let de = Deserializer::from_slice(b);
+                        let mut de = if order == 0 { de.use_rawnumber().utf8_lossy() } else { de.utf8_lossy().use_rawnumber() };
+                        de.deserialize().map_err(|e| format!("rejected: {e}"))
+                    })?;
+                    walk::cmp_value(&v, &root, &text, true)
+                }),
+            );
+        }
         ok_or(
             ctx,
             "utf8_lossy<Value>",
